@@ -21,7 +21,69 @@ func (c config) canon(id string) string {
 	if c.Icpt == "lower" {
 		return strings.ToLower(id)
 	}
+	if c.Icpt == "ns" {
+		return nsPrefix(id)
+	}
 	return id
+}
+
+// nsPrefix is an idempotent namespace prefix: it maps the empty id - the id of a new model's placeholder active
+// mode - to the key "ns/" (6e97ca4: the placeholder names no mode, whatever the interceptor makes of "").
+func nsPrefix(id string) string {
+	if strings.HasPrefix(id, "ns/") {
+		return id
+	}
+	return "ns/" + id
+}
+
+// nsAlphabet: the ids x, ns/x (= x to the collection) and ns/ (the key of the empty id), both API levels.
+func nsAlphabet() []op {
+	m := func(id string, normal bool) *mode { return &mode{ID: id, Title: "t" + id, Normal: normal} }
+	return []op{
+		{Kind: "add", Mode: m("ns/", false)},
+		{Kind: "add", Mode: m("x", true)},
+		{Kind: "add", Mode: m("ns/x", false)},
+		{Kind: "create", Mode: &mode{Title: "gen"}, Cands: tenCands()},
+		{Kind: "update", Mode: &mode{ID: "ns/", Title: "u"}, HasMask: true, Mask: []string{"title"}},
+		{Kind: "update", Mode: &mode{ID: "ns/x", Title: "u"}, HasMask: true, Mask: []string{"title"}},
+		{Kind: "delete", ID: "ns/"},
+		{Kind: "s.delete", ID: "ns/"},
+		{Kind: "delete", ID: "x"},
+		{Kind: "s.delete", ID: "ns/x", AllowMissing: true},
+		{Kind: "change", ID: "x"},
+		{Kind: "s.change", ID: "ns/"},
+		{Kind: "change", ID: ""},
+		{Kind: "clear"},
+		{Kind: "setactive", Mode: &mode{ID: "ns/", Title: "set", Start: 5}},
+		{Kind: "find", ID: ""},
+	}
+}
+
+// nsFamily: all sequences up to maxLen over nsAlphabet from a new model behind the ns/ prefix, then random ones.
+func (rn *runner) nsFamily(tie *lib.Tie, r *rand.Rand, maxLen, random int) {
+	al := nsAlphabet()
+	cfg := config{Icpt: "ns"}
+	rn.doConfig(cfg, tie)
+	for n := 1; n <= maxLen; n++ {
+		var rec func(prefix []op)
+		rec = func(prefix []op) {
+			if len(prefix) == n {
+				rn.do(cfg, withNow(prefix), tie, fmt.Sprintf("ns-interceptor-len-%d", n))
+				return
+			}
+			for _, o := range al {
+				rec(append(append([]op{}, prefix...), o))
+			}
+		}
+		rec(nil)
+	}
+	for i := 0; i < random; i++ {
+		seq := make([]op, 4+r.Intn(9))
+		for j := range seq {
+			seq[j] = al[r.Intn(len(al))]
+		}
+		rn.do(cfg, withNow(seq), tie, "ns-interceptor-random")
+	}
 }
 
 func icptConfigs() []config {
@@ -139,6 +201,11 @@ func monitorIcpt(m *lib.Monitor, cfg config, seq []op, obs []stepObs) {
 			if namesActive && hasCanon(cfg, st.Before, o.ID) && (ok || !hasCanon(cfg, st.After, o.ID)) {
 				m.Violate("C19/I2/active-mode-deleted/"+sk, "the active mode was deleted (or the delete reported success): the call names it by an id the collection maps to the same stored mode", input, "FailedPrecondition, mode kept", fmt.Sprintf("%s; active id %q, deleted id %q, modes after: %q", st.Out, st.Before.Active.Id, o.ID, modeStrings(st.After)))
 				return // the root cause is reported; I3 fails at the same step as its consequence
+			}
+			// a mode that is not the active one is not refused as the active one; nothing is active before the first
+			// switch (the placeholder's id names no mode, unless the call spells that very id: C19_placeholder)
+			if !namesActive && o.ID != st.Before.Active.Id && hasCanon(cfg, st.Before, o.ID) && isCode(st.Err, codes.FailedPrecondition) {
+				m.Violate("C19/delete/non-active-refused/"+sk, "DeleteMode of a mode that is not active was refused with ErrDeleteActiveMode", input, "OK, mode deleted", st.Out)
 			}
 			// deleting an absent mode
 			if !hasCanon(cfg, st.Before, o.ID) && o.ID != "" && cfg.canon(o.ID) != cfg.canon(st.Before.Active.Id) {
